@@ -48,7 +48,12 @@ def main():
         'engines': [{'name': e, 'path': '/verif/spec/%s.tla' % e, 'serves_properties': sorted(p), 'kind_free_text': 'TLA+ specification checked with TLC; bound to the code by replay and trace validation'} for e, p in sorted(engines.items())],
         'checks': checks,
         'not_applicable': na,
-        'notes': 'Model-based verification with explicit TLA+ specifications (see DESIGN.md). exit 2 = machinery failure.',
+        'notes': ('Model-based verification with explicit TLA+ specifications (DESIGN.md; section 11 "As built" is authoritative; spec/README.md indexes the modules). '
+                  'Commands run in /verif; exit 0 = held on everything explored (KNOWN-FINDING lines list the findings of known_findings.json / known_findings.d/*.json that were seen), '
+                  'exit 1 + "VIOLATION property=<id> replay=<path>" = an unlisted violation (replay with ./check <id> --replay <path>), exit 2 = machinery failure (never a verdict). '
+                  'DRIFT lines = the real code left the behaviours of the specification without breaking a clause (exit code unaffected). '
+                  'VERIF_SEED selects the sampled part of each check; VERIF_REPO=<dir> checks another tree; checks are meant to run one at a time. '
+                  'Repairs of genuine defects are the "fix:" commits of /repo (DESIGN.md 11.3, "fixed" in known_findings.json); seeded changes with demos: seeded/; ./check selftest checks the machinery itself.'),
     }
     json.dump(m, open(os.path.join(HERE, 'MANIFEST.json'), 'w'), indent=1)
     print('MANIFEST.json: %d checks, %d not_applicable' % (len(checks), len(na)))
